@@ -5,6 +5,7 @@ package conc
 import (
 	"context"
 	"fmt"
+	"github.com/boz/kcache/filter"
 	"runtime"
 	"strings"
 	"sync/atomic"
@@ -90,6 +91,19 @@ func finishPods(h *joinHandle, dstc pod.Controller, j pod.Controller) (*joinHand
 	return h, nil
 }
 
+// joinFnDelay, when set, is called by the filter functions handed to the joins (the ...With constructors): a filter
+// function that takes its time, between the join's reading of its source and its Refilter
+var joinFnDelay func()
+
+func slowFn[T any](f func(...T) filter.ComparableFilter) func(...T) filter.ComparableFilter {
+	return func(xs ...T) filter.ComparableFilter {
+		if d := joinFnDelay; d != nil {
+			d()
+		}
+		return f(xs...)
+	}
+}
+
 func joinCtors() []joinCtor {
 	return []joinCtor{
 		{name: "ServicePods", srcKind: "service", dstKind: "pod", mk: func(ctx context.Context, log *kv.Log, src, _, dst *kv.Server) (*joinHandle, error) {
@@ -98,7 +112,7 @@ func joinCtors() []joinCtor {
 				return nil, err
 			}
 			dc, _ := podBase(ctx, log, dst)
-			j, err := join.ServicePods(ctx, sc, dc)
+			j, err := join.ServicePodsWith(ctx, sc, dc, slowFn(service.PodsFilter))
 			if err != nil {
 				return nil, err
 			}
@@ -111,7 +125,7 @@ func joinCtors() []joinCtor {
 				return nil, err
 			}
 			dc, _ := podBase(ctx, log, dst)
-			j, err := join.RCPods(ctx, sc, dc)
+			j, err := join.RCPodsWith(ctx, sc, dc, slowFn(replicationcontroller.PodsFilter))
 			if err != nil {
 				return nil, err
 			}
@@ -124,7 +138,7 @@ func joinCtors() []joinCtor {
 				return nil, err
 			}
 			dc, _ := podBase(ctx, log, dst)
-			j, err := join.RSPods(ctx, sc, dc)
+			j, err := join.RSPodsWith(ctx, sc, dc, slowFn(replicaset.PodsFilter))
 			if err != nil {
 				return nil, err
 			}
@@ -137,7 +151,7 @@ func joinCtors() []joinCtor {
 				return nil, err
 			}
 			dc, _ := podBase(ctx, log, dst)
-			j, err := join.DeploymentPods(ctx, sc, dc)
+			j, err := join.DeploymentPodsWith(ctx, sc, dc, slowFn(deployment.PodsFilter))
 			if err != nil {
 				return nil, err
 			}
@@ -150,7 +164,7 @@ func joinCtors() []joinCtor {
 				return nil, err
 			}
 			dc, _ := podBase(ctx, log, dst)
-			j, err := join.DaemonSetPods(ctx, sc, dc)
+			j, err := join.DaemonSetPodsWith(ctx, sc, dc, slowFn(daemonset.PodsFilter))
 			if err != nil {
 				return nil, err
 			}
@@ -163,7 +177,7 @@ func joinCtors() []joinCtor {
 				return nil, err
 			}
 			dc, _ := podBase(ctx, log, dst)
-			j, err := join.StatefulSetPods(ctx, sc, dc)
+			j, err := join.StatefulSetPodsWith(ctx, sc, dc, slowFn(statefulset.PodsFilter))
 			if err != nil {
 				return nil, err
 			}
@@ -176,7 +190,7 @@ func joinCtors() []joinCtor {
 				return nil, err
 			}
 			dc, _ := podBase(ctx, log, dst)
-			j, err := join.JobPods(ctx, sc, dc)
+			j, err := join.JobPodsWith(ctx, sc, dc, slowFn(job.PodsFilter))
 			if err != nil {
 				return nil, err
 			}
@@ -192,7 +206,7 @@ func joinCtors() []joinCtor {
 			if err != nil {
 				return nil, err
 			}
-			j, err := join.IngressServices(ctx, sc, dc)
+			j, err := join.IngressServicesWith(ctx, sc, dc, slowFn(ingress.ServicesFilter))
 			if err != nil {
 				return nil, err
 			}
@@ -433,6 +447,20 @@ func runJoinScenario(t *testing.T, tr *tracer, idx int, seed uint64) {
 			gatedSrv.ListGate = make(chan struct{})
 		}
 		log := &kv.Log{Hook: w.hook}
+		joinFnDelay = nil
+		if w.perturb {
+			var fnN uint64
+			joinFnDelay = func() {
+				n := atomic.AddUint64(&fnN, 1)
+				atomic.AddUint64(&w.hookN, 1)
+				h := n*0xD6E8FEB86659FD93 ^ uint64(idx)
+				h ^= h >> 31
+				if h%2 == 0 {
+					time.Sleep(time.Duration(1+h%3000) * time.Microsecond)
+				}
+			}
+		}
+		defer func() { joinFnDelay = nil }()
 		h, err := jc.mk(ctx, log, w.srcSrv, w.midSrv, w.dstSrv)
 		if err != nil {
 			t.Fatal(err)
@@ -466,8 +494,8 @@ func runJoinScenario(t *testing.T, tr *tracer, idx int, seed uint64) {
 				tr.line(kv.L("burst-begin"))
 			}
 			for j := 0; j < n; j++ {
-				switch x := r.Intn(11); {
-				case x == 10:
+				switch x := r.Intn(12); {
+				case x >= 10:
 					w.flipflop(jc.srcKind, w.srcSrv)
 				case x < 4:
 					w.srcEvent(jc.srcKind, w.srcSrv)
